@@ -39,8 +39,13 @@ def _sum_cells(list_of_cells):
     return out
 
 
-def h_totals(ctx, skeleton, n, drivers, args=None):
+def h_totals(ctx, skeleton, n, drivers, args=None, same_names=False):
     spec = M.SKELETONS[skeleton](n, **(args or {}))
+    if same_names:
+        # distinct objects that share a display name (archetypes all called "Default SSD storage" etc.)
+        for coll in ("storages", "servers", "networks", "devices", "countries", "jobs", "steps", "journeys", "patterns"):
+            for k, o in spec.get(coll, {}).items():
+                o["name"] = f"same {coll}"
     sym = traffic_syms(spec)
     for d in drivers:
         sym.update(DRIVERS[d](spec))
@@ -133,7 +138,7 @@ def h_totals(ctx, skeleton, n, drivers, args=None):
             c = objs[spec["patterns"][pname]["country"]]
             for jname in gt["jobs_of_pattern"][pname]:
                 d = objs[jname].hourly_data_transferred_per_usage_pattern
-                val = [v for key, v in d.items() if key.name == pname]
+                val = [v for key, v in d.items() if key.id == up.id]
                 ctx.require(len(val) == 1, f"{jname}.hourly_data_transferred_per_usage_pattern has {pname}")
                 if val:
                     exp.append({k: v * bw * ci(c) for k, v in V.phys(val[0])[1].items()})
@@ -164,6 +169,8 @@ def plan(tier, seed):
         p.append(("totals", dict(skeleton=sk, n=n, drivers=["intens"])))
     p.append(("totals", dict(skeleton="T3", n=2, drivers=["power", "job"])))
     p.append(("totals", dict(skeleton="T1", n=2, drivers=["capacity"])))
+    p.append(("totals", dict(skeleton="T5", n=2, drivers=["intens"], same_names=True)))
+    p.append(("totals", dict(skeleton="T3", n=2, drivers=["power"], same_names=True)))
     if tier == "thorough":
         for sk in ("T1", "T2", "T3", "T4", "T5", "T7"):
             for d in (["power"], ["job"], ["capacity"], ["intens", "power"]):
